@@ -116,10 +116,19 @@ func checkC08(c *Check, p *Program) {
 			arg := call.Common().Args[len(call.Common().Args)-1]
 			d := newDecodeCtx(p, fn, func(*ssa.Function) bool { return false })
 			ok2 := false
-			if sl, isSl := arg.(*ssa.Slice); isSl && sl.High == nil {
-				if lo, isK := constInt(sl.Low); isK && d.isData(sl.X) {
-					ok2 = d.lenLB(call.Block(), nil) >= lo+need
+			if sl, isSl := arg.(*ssa.Slice); isSl && d.isData(sl.X) && sl.Max == nil {
+				lo, isK := int64(0), true
+				if sl.Low != nil {
+					lo, isK = constInt(sl.Low)
 				}
+				if isK && sl.High == nil {
+					ok2 = d.lenLB(call.Block(), nil) >= lo+need
+				} else if hi, isH := constInt(sl.High); isK && sl.High != nil && isH {
+					// data[lo:hi]: the window holds the read and lies within the payload
+					ok2 = hi-lo >= need && d.lenLB(call.Block(), nil) >= hi
+				}
+			} else if d.isData(arg) {
+				ok2 = d.lenLB(call.Block(), nil) >= need
 			}
 			c.Decide(ok2, "C08.panic", helperName(fn)+" big-endian read within the payload", p.InstrPos(call), fmt.Sprintf("len(data) guard leaves >= %d bytes for the read", need), "binary.BigEndian read on a slice that may be too short (panics)")
 		})
